@@ -79,7 +79,7 @@ theorem C15_callback_site_local (inp : Bytes) (c : Common) (sim : Sim) (k : RLKi
   intro h
   have := (lexHandleFeedback_X inp c sim (.requestLexeme k) tok hi
     (fun k' hk' => by simp only [Feedback.requestLexeme.injEq] at hk'; subst hk'; exact ⟨hstart, hend⟩)).1 _ h
-  exact this (Or.inr rfl)
+  exact this (Or.inl (Or.inr rfl))
 
 /-- **site 1, local.** `handle_tag` reports "Tag should be a start tag at this point" (or the callback
 assertion) only on an END-tag lexeme while an aux-info request is pending. -/
@@ -96,15 +96,15 @@ abbrev PendD : Disp γ → Bool := fun d => d.pendingAux
 /-- stream invariant between `write` calls: the parser invariant over the held bytes followed by
 whatever comes next -/
 def SXInv (w : World γ) (L : Labels) (TT : TLabels) (P : PLabels) (S : SLabels) (s : Stream γ) : Prop :=
-  ∀ data, PX0 w.env L TT P S PendD Disp.Good (s.pending ++ data) s.parser
+  ∀ data, PX0 w.env L TT P S PendD Disp.Good true (s.pending ++ data) s.parser
 
 section
 variable {w : World γ} {L : Labels} {TT : TLabels} {P : PLabels} {S : SLabels}
 
 theorem PX0_setSink {inp : Bytes} {p : Parser (Disp γ)} (d : Disp γ)
-    (h : PX0 w.env L TT P S PendD Disp.Good inp p) (hpa : d.pendingAux = p.x.sink.pendingAux)
+    (h : PX0 w.env L TT P S PendD Disp.Good true inp p) (hpa : d.pendingAux = p.x.sink.pendingAux)
     (hgf : d.gotFlagsFromHint = p.x.sink.gotFlagsFromHint) :
-    PX0 w.env L TT P S PendD Disp.Good inp { p with x := { p.x with sink := d } } := by
+    PX0 w.env L TT P S PendD Disp.Good true inp { p with x := { p.x with sink := d } } := by
   have hgood : Disp.Good p.x.sink → Disp.Good d := by
     intro hg hh
     rw [hpa]
@@ -205,7 +205,7 @@ theorem Stream.write_X (hc : CtlClean w.ctl) (hside : RelexSide w.tbl L TT P S) 
     obtain ⟨c1, c2, c3, c4, c5⟩ := Stream.chunkFor_inr hcf
     dsimp only
     subst c1
-    have hp1 : PX0 w.env L TT P S PendD Disp.Good (s.pending ++ data) s1.parser := by rw [c2]; exact hs data
+    have hp1 : PX0 w.env L TT P S PendD Disp.Good true (s.pending ++ data) s1.parser := by rw [c2]; exact hs data
     obtain ⟨q1, q2⟩ := parse_X (env := w.env) (inp := s.pending ++ data) (dispOps_xlaws hc) hside false s1.parser hp1
     cases hpr : (s1.parser.parse w.env (s.pending ++ data) false).2 with
     | error e =>
@@ -247,7 +247,7 @@ theorem Stream.end_X (hc : CtlClean w.ctl) (hside : RelexSide w.tbl L TT P S) (s
     (hs : SXInv w L TT P S s) : ∀ e, (s.end w).2 = .error e → ¬ U2err e := by
   intro e he
   unfold Stream.end at he
-  have hp1 : PX0 w.env L TT P S PendD Disp.Good (if s.hasBuffered then s.buf.data else []) s.parser := by
+  have hp1 : PX0 w.env L TT P S PendD Disp.Good true (if s.hasBuffered then s.buf.data else []) s.parser := by
     have := hs []
     simpa [Stream.pending] using this
   obtain ⟨q1, _⟩ := parse_X (env := w.env) (dispOps_xlaws hc) hside true s.parser hp1
@@ -361,7 +361,7 @@ parser invariant — also right after a scanner → lexer hand-over (`PX1`) — 
 `"Tag should be a start tag at this point"` nor with the `RequestLexeme` callback assertion. -/
 theorem C15_signals_full (w : World γ) (L : Labels) (TT : TLabels) (P : PLabels) (S : SLabels)
     (hside : RelexSide w.tbl L TT P S) (hc : CtlClean w.ctl) (inp : Bytes) (last : Bool) (p : Parser (Disp γ))
-    (hp : PX1 w.env L TT P S PendD Disp.Good inp p) (e : Err)
+    (hp : PX1 w.env L TT P S PendD Disp.Good true inp p) (e : Err)
     (he : (runLoop w.env inp (defaultFuel inp) (p.machine last)).2 = .err e) :
     e ≠ .internal "Tag should be a start tag at this point" ∧
     e ≠ .panic "RequestLexeme callback: unexpected tag type / empty ns stack" := by
